@@ -768,12 +768,43 @@ class Gen:
                         self.add({'kind': 'bitfield', 'name': self.name('S'), 'base': W, 'fields': [f]}, 'F7x',
                                  'accept' if ok else 'reject', ['slice'])
 
+    def fam_exhaustive(self):
+        """thorough tier: ALL 128 base widths (full-width field + top-bit bool, defaults in rotation), and ALL contiguous
+        layouts (lo, hi) on 8- and 16-bit storage"""
+        rng = self.rng
+        F = self.field
+        for W in range(1, 129):
+            fields = [F('all', {'k': 'u', 'n': W}, [('r', 0, W - 1)] if W > 1 else [('s', 0)]),
+                      F('top', {'k': 'bool'}, [('s', W - 1)])]
+            d = {'kind': 'bitfield', 'name': self.name('S'), 'base': W, 'fields': fields}
+            form = W % 4
+            if form == 1:
+                d['default'] = {'form': 'lit', 'value': rng.getrandbits(W)}
+            elif form == 2:
+                d['default'] = {'form': 'const', 'name': 'DEF_%s' % d['name'], 'value': rng.getrandbits(W)}
+            elif form == 3:
+                d['default'] = {'form': 'lit', 'value': (1 << W) - 1}
+                d['legacy'] = True
+            self.add(d, 'F5', 'accept', ['all-bases', 'W=%d' % W])
+        for W in (8, 12, 16):
+            for lo in range(W):
+                fields = []
+                for hi in range(lo, W):
+                    n = hi - lo + 1
+                    fields.append(F('f%d' % hi, self.type_for_width(n), [('r', lo, hi)] if n > 1 else [('s', lo)], acc='rw'))
+                    if fields[-1]['ty']['k'] == 'bool':
+                        fields[-1]['entries'] = [['s', lo]]
+                        fields[-1]['bits_kw'] = False
+                self.add({'kind': 'bitfield', 'name': self.name('S'), 'base': W, 'fields': fields}, 'F1x', 'accept', ['all-layouts', 'W=%d' % W])
+
     def generate(self):
         q = self.tier == 'quick'
         self.fam_single(42 if q else 200)
         self.fam_arrays(20 if q else 120)
         self.fam_lists(24 if q else 160)
         self.fam_structs(48 if q else 240)
+        if not q:
+            self.fam_exhaustive()
         self.fam_enums()
         self.invalid_enums()
         self.invalid_bitfields(6 if q else 40)
